@@ -247,6 +247,10 @@ def catalogue(feat, text, facts):
     for end, step, owner in step_end_lines(facts):
         yield "second-feature-after-steps", end, u"%s: again" % feature_kw, end + 1
         yield "free-text-after-steps", end, u"  = free text after steps", end + 1
+        # a line that is exactly a keyword WITHOUT its colon is free text as well (a truncated "Scenario: ..." line)
+        bare_kind = ("scenario", "examples", "feature", "rule", "scenario_outline", "background")[end % 6]
+        bare_alias = kws[bare_kind][(end // 6) % len(kws[bare_kind])]
+        yield "bare-keyword-after-steps", end, u"  %s" % bare_alias, end + 1
         yield "second-background-after-steps", end, u"  %s: again" % background_kw, end + 1
         if owner["kind"] != "outline":
             yield "examples-outside-outline", end, u"    %s: stray" % examples_kw, end + 1
@@ -254,6 +258,8 @@ def catalogue(feat, text, facts):
             ncols = len(step["table"]["headings"])
             for ln in step["table"]["lines"]:
                 yield "table-row-cell-count", ln, u"      | " + u" | ".join([u"x"] * (ncols + 1)) + u" |", ln + 1
+                # ... also when the closing pipe of the row with the wrong cell count is missing
+                yield "table-row-cell-count", ln, u"      | " + u" | ".join([u"xyz"] * (ncols + 1)), ln + 1
     # examples tables
     for item in _iter_scen(facts):
         if item["kind"] == "outline":
@@ -411,7 +417,7 @@ def run_atheris(rec):
 def required_labels(tier):
     faults = ["second-feature-after-steps", "free-text-after-steps", "second-background-after-steps",
               "examples-outside-outline", "table-row-cell-count", "and-without-predecessor", "malformed-tag",
-              "docstring-before-step", "table-before-step"]
+              "docstring-before-step", "table-before-step", "bare-keyword-after-steps"]
     return ["soup", "structured-soup", "pool-single", "mutations", "raises-ParserError", "accepted-by-all",
             "fault-text:braces/percent", "entry:file-with-leading-blank-lines"] + \
            ["fault:" + f for f in faults]
@@ -427,3 +433,4 @@ KNOWN_PREDICATES = {}
 
 
 RULE = RULE + " " + ('Injected fault lines and soup lines also carry text that is harmful inside message templates (braces, percent signs, non-ASCII field names).')
+RULE = RULE + " " + ('The fault catalogue also inserts a line that is exactly a keyword alias without its colon after steps, and a table row with the wrong cell count whose closing pipe is missing.')
